@@ -346,7 +346,7 @@ GEN_FAMILIES = {
     "G1e": ("MC_Gen_G1e.cfg", 300, None),
     "G1f": ("MC_Gen_G1f.cfg", None, None),
     "G1g": ("MC_Gen_G1g.cfg", None, None),
-    "G2p_2": ("MC_Gen_G2p_2.cfg", 900, None),
+    "G2p_2": ("MC_Gen_G2p_2.cfg", None, None),      # all pairs of same-path members (as for G2s)
     "G2p_3s": ("MC_Gen_G2p_3s.cfg", 400, 0),
     "G2p_3": ("MC_Gen_G2p_3.cfg", 0, 8000),
     "G2s": ("MC_Gen_G2s.cfg", None, None),      # all shape pairs: each pair is the only witness of one comparison arm
